@@ -149,6 +149,10 @@ impl World {
                         name: (*id).clone(),
                         alias: None,
                     }))
+                } else if class == "world" {
+                    // the world type of the (alphabetically) first package of the library
+                    let first = packages.keys().min().expect("a library with a world type has a package");
+                    Type::World(packages[first].ty())
                 } else {
                     let dep_vt = |d: &String| match def_types[d] {
                         Type::Value(v) => v,
